@@ -301,12 +301,60 @@ def opProve (a : List String) : String :=
     | none => "bad-op"
   | _ => "bad-op"
 
-/-- `mprove <expect|-> <instr> …` : the expectation (from the theorems) travels with the emitted op -/
+/-- scalars an adversary can compute from the instruction bytes *before* choosing its responses:
+    functions of the challenge `c` (which does not depend on the responses) -/
+def rhoOf (name : String) (c : CSc) : Option CSc :=
+  match name with
+  | "one" => some 1
+  | "c" => some c
+  | "cc" => some (c * c)
+  | "ci" => some c⁻¹
+  -- `ρ·c/(1+ρ)` for ρ = c, −c, c², c⁻¹ : the response shift that makes two `G`-direction residuals
+  -- `Δ•G` and `(Δ − c·m)•G` cancel under weights in ratio `1 : ρ` (times `m`, supplied as the coefficient)
+  | "q:c" => some (c * c * (1 + c)⁻¹)
+  | "q:nc" => some (-(c * c) * (1 - c)⁻¹)
+  | "q:cc" => some (c * c * c * (1 + c * c)⁻¹)
+  | "q:ci" => some (c * (c + 1)⁻¹)
+  | "q:one" => some (c * ((1 : CSc) + 1)⁻¹)
+  | _ => none
+
+/-- `forge <exp|-> <instr> <hex> <off=k*rho,…>`: shift the response scalars at the given byte offsets by
+    `k·ρ(c)` *after* the challenge `c` is known (it does not depend on the responses). A verifier whose
+    batching weights have a ratio an adversary can predict from `c` accepts one of these. -/
+def opForge (a : List String) : String :=
+  match a with
+  | [exp, instr, h, spec] =>
+    match ofHex h with
+    | none => "bad-op"
+    | some b =>
+      match (traceSigma instr b).bind (fun tr => (tr.find? (·.1 == "c")).map (·.2)) with
+      | none => "bad-op"
+      | some c =>
+        let r : Option Bytes := (spec.splitOn ",").foldlM (fun (b : Bytes) item =>
+          match item.splitOn "=" with
+          | [off, rhs] =>
+            match off.toNat?, rhs.splitOn "*" with
+            | some off, [k, rho] =>
+              match scOfHex k, rhoOf rho c, ScCodec.canon (Sc := CSc) (slice b off 32) with
+              | some k, some rv, some z =>
+                if off + 32 ≤ b.length then some (b.take off ++ ScCodec.enc (z + k * rv) ++ b.drop (off + 32)) else none
+              | _, _, _ => none
+            | _, _ => none
+          | _ => none) b
+        match r with
+        | some b' => if exp == "-" then s!"emit:verify {instr} {hexOut b'}" else s!"emit:!{exp} verify {instr} {hexOut b'}"
+        | none => "bad-op"
+  | _ => "bad-op"
+
+/-- `mprove <expect|-|F:spec> <instr> …` : the expectation (from the theorems) travels with the emitted op -/
 def opMprove (a : List String) : String :=
   match a with
   | exp :: instr :: rest =>
     match mproveSigma instr rest with
-    | some b => if exp == "-" then s!"emit:verify {instr} {hexOut b}" else s!"emit:!{exp} verify {instr} {hexOut b}"
+    | some b =>
+      if exp == "-" then s!"emit:verify {instr} {hexOut b}"
+      else if exp.startsWith "F:" then s!"emit:forge R {instr} {hexOut b} {(exp.drop 2).toString}"
+      else s!"emit:!{exp} verify {instr} {hexOut b}"
     | none => "bad-op"
   | _ => "bad-op"
 
